@@ -190,11 +190,18 @@ def random_op(rng, model):
     have = list(model.keys())
     kinds = ["create_list", "create_scalar", "remove", "delete_item", "update_list", "update_scalar", "set_list",
              "set_scalar", "set_fn", "set_obs", "add_af", "read"]
+    kinds += ["virt"]
     if have:
         kinds += ["unary", "binary", "scalar", "expr", "eval", "expr", "eval", "unary", "binary", "coord",
                   "anyop", "anyop", "anyop", "expr_unknown", "sibling", "swap_with_sibling"]
     k = rng.choice(kinds)
     name = rng.choice(NAMES)
+    if k == "virt":
+        # an expression whose operands are the virtual features only (coordinates): it can be the very first operation
+        # on a track whose feature table is still empty -- the evaluator's temporaries then land in the first columns
+        t = rng.choice(["{o}=x+y", "{o}=x*2-z", "{o}=(x+1)*(y-1)", "x+y*2", "(x-y)*(z+1)", "{o}=x+2*3", "x=x+1",
+                        "{o}=ABS{{x}}+y"])
+        return ("expr" if "=" in t else "eval", t.format(o=name))
     if k in ("create_list", "create_scalar", "remove", "delete_item", "update_list", "update_scalar", "set_list",
              "set_scalar", "set_fn", "set_obs", "add_af", "read"):
         return (k, name)
@@ -613,6 +620,7 @@ class Runner:
             self.flags.add("expression_that_cannot_be_evaluated")
             return "must_fail", (lambda: tr.operate(e)), op[2]
         elif k == "anyop":
+            self.shift_expect = None
             # any void operator, without a model of what it computes: the list the call RETURNS is what it says it
             # wrote, so that is what reading the output name must give afterwards; everything else must stay put
             _, opn, i1, arg, o = op
@@ -625,6 +633,16 @@ class Runner:
                     if a == 0 or (isinstance(a, int) and a % n == 0):
                         self.flags.add("shift_by_whole_turns")
                 call = lambda: tr.operate(getattr(Operator, opn), i1, a, o)
+                if arg[0] == "turns" and opn in ("SHIFT", "SHIFT_REV", "SHIFT_CIRCULAR", "SHIFT_CIRCULAR_REV"):
+                    # the one family whose definition is documented in one line each -- y(t) = x(t - arg) for SHIFT,
+                    # y(t) = x(t + arg) for SHIFT_REV, undefined (NaN) outside the track, wrapping around for the
+                    # circular ones: the values written are judged for every sign of the offset
+                    kk = a if opn in ("SHIFT", "SHIFT_CIRCULAR") else -a
+                    src = list(model[i1])
+                    if "CIRCULAR" in opn:
+                        self.shift_expect = [src[(i - kk) % n] for i in range(n)]
+                    else:
+                        self.shift_expect = [src[i - kk] if 0 <= i - kk < n else float("nan") for i in range(n)]
             elif arg is None:
                 call = lambda: tr.operate(getattr(Operator, opn), i1, o)
             else:
@@ -638,6 +656,8 @@ class Runner:
         elif k in ("expr", "eval"):
             e = op[1]
             import re
+            if not model and any(c in e for c in "+-*{("):
+                self.ctx.cls("expression_on_an_empty_feature_table")
             used = set(re.findall(r"\b([abcxyz])\b", e.split("=", 1)[-1] if k == "expr" else e))
             if "+=" in e:
                 used.add(e.split("+=")[0])
@@ -791,6 +811,14 @@ class Runner:
                     except (TypeError, ValueError):
                         vals = None
                 if vals is not None:
+                    se = getattr(self, "shift_expect", None)
+                    self.shift_expect = None
+                    if se is not None:
+                        self.ctx.monitor("anyop.shift_family_vs_its_definition")
+                        if not _seq_veq(vals, se):
+                            return {"what": "a shift operator did not write y(t) = x(t -/+ offset) (NaN outside the "
+                                            "track, wrapping for the circular ones)", "op": list(op), "got": vals,
+                                    "expected": se}
                     self.model[out] = vals          # what the call says it wrote
                     self.exact.add(out)
                     self.ctx.monitor("anyop.returned_list_is_what_is_read")
@@ -1058,11 +1086,12 @@ def classify(case, witness):
 # floors for the call-history workloads added in session 3 (a run in which they were silently skipped is inconclusive)
 _floors_base = floors
 _FLOORS_EXTRA = {'monitors': {'decoy.unchanged': 50000, 'failed_expression.state_consistent': 500,
-                              'anyop.returned_list_is_what_is_read': 3000,
+                              'anyop.returned_list_is_what_is_read': 3000, 'anyop.shift_family_vs_its_definition': 800,
                               'scale.table_consistent': 100},
                  'classes': {'shift_by_whole_turns': 500, 'expression_through_item_access': 2000, 'sibling_track': 1000,
                              'less_usual_feature_names': 5000, 'zero_valued_write': 5000, 'algorithm.undefined_at_an_observation.over_an_existing_name': 800,
-                             'algorithm_named_by_its_own_name.over_an_existing_name': 500, 'expression_of_more_than_100_operations': 6}}
+                             'algorithm_named_by_its_own_name.over_an_existing_name': 500,
+                             'expression_on_an_empty_feature_table': 300, 'expression_of_more_than_100_operations': 6}}
 
 
 def floors(tier):
